@@ -27,6 +27,7 @@ import (
 
 	"github.com/ontio/ontology-crypto/keypair"
 	"github.com/polynetwork/poly/common"
+	"github.com/polynetwork/poly/core/types"
 )
 
 /** AccountData - for wallet read and save, no crypto object included **/
@@ -184,7 +185,16 @@ func (this *WalletData) reencrypt(passwords [][]byte, param *keypair.ScryptParam
 	}
 	keys := make([]*keypair.ProtectedKey, len(this.Accounts))
 	for i, v := range this.Accounts {
-		prot, err := keypair.ReencryptPrivateKey(&v.ProtectedKey, passwords[i], passwords[i], this.Scrypt, param)
+		pri, err := keypair.DecryptWithCustomScrypt(&v.ProtectedKey, passwords[i], this.Scrypt)
+		if err == nil {
+			if addr := types.AddressFromPubKey(pri.Public()); addr.ToBase58() != v.Address {
+				err = errors.New("decrypted key does not match the account address")
+			}
+		}
+		if err != nil {
+			return fmt.Errorf("re-encrypt account %d failed: %s", i, err)
+		}
+		prot, err := keypair.EncryptWithCustomScrypt(pri, v.Address, passwords[i], param)
 		if err != nil {
 			return fmt.Errorf("re-encrypt account %d failed: %s", i, err)
 		}
